@@ -27,6 +27,17 @@ func (mhs *messageHandlers) store(route []string, callback MessageHandlerFunc) {
 	})
 }
 
+// swap stores a callback for the route and returns the previous one (nil if
+// there was none).
+func (mhs *messageHandlers) swap(route []string, callback MessageHandlerFunc) *messageHandler {
+	previous, _ := mhs.handlers.Load(join(route))
+	mhs.store(route, callback)
+	if previous == nil {
+		return nil
+	}
+	return previous.(*messageHandler)
+}
+
 func (mhs *messageHandlers) delete(route []string) {
 	mhs.handlers.Delete(join(route))
 }
